@@ -394,7 +394,60 @@ def check_parse_is_fresh(ctx, data, label):
                       'a second parse of the same text differs from the first after the first tree was edited (state shared between parses)')
 
 
+OWN_ZONE = (b'BEGIN:VCALENDAR\r\nVERSION:2.0\r\nPRODID:-//verif//own zone//EN\r\nBEGIN:VTIMEZONE\r\nTZID:%s\r\nX-LIC-LOCATION:Nowhere\r\n'
+            b'BEGIN:STANDARD\r\nDTSTART:19701025T030000\r\nTZOFFSETFROM:+0545\r\nTZOFFSETTO:+0445\r\nTZNAME:VST\r\nX-OBSERVANCE-NOTE:kept\r\n'
+            b'RRULE:FREQ=YEARLY;BYMONTH=10;BYDAY=-1SU\r\nEND:STANDARD\r\nBEGIN:DAYLIGHT\r\nDTSTART:19700329T020000\r\n'
+            b'TZOFFSETFROM:+0445\r\nTZOFFSETTO:+0545\r\nTZNAME:VDT\r\nX-A:1\r\nX-B;X-P=q:2\r\nRRULE:FREQ=YEARLY;BYMONTH=3;BYDAY=-1SU\r\nEND:DAYLIGHT\r\n'
+            b'END:VTIMEZONE\r\nBEGIN:VEVENT\r\nUID:o1\r\nDTSTART;TZID=%s:20240615T120000\r\nEND:VEVENT\r\nEND:VCALENDAR\r\n')
+
+ESCAPED_PARAM_TEXT = [
+    # (line inside a VEVENT, property name, the TEXT value it denotes): a backslash sequence in the PARAMETER part
+    # must not move the place where the value starts
+    ('SUMMARY;X-AUTHOR=Doe\\, John:Quarterly review', 'SUMMARY', 'Quarterly review'),
+    ('DESCRIPTION;ALTREP="file:\\\\server\\share\\x.html":Hello', 'DESCRIPTION', 'Hello'),
+    ('X-NOTE;X-P=a\\;b;X-Q=c\\:d:value\\, with comma', 'X-NOTE', 'value, with comma'),
+    ('LOCATION;X-PATH=c:\\\\tmp:Room 1', 'LOCATION', None),
+    ('COMMENT;X-P=\\\\\\\\:four', 'COMMENT', 'four'),
+]
+
+
+def check_denotation_corpus(ctx):
+    import icalendar
+    for line, name, want in ESCAPED_PARAM_TEXT:
+        data = ('BEGIN:VEVENT\r\nUID:1\r\n' + line + '\r\nEND:VEVENT\r\n').encode()
+        ctx.evaluated(('escaped-param', line))
+        try:
+            ev = icalendar.Event.from_ical(data)
+        except ValueError:
+            continue
+        if want is not None and name in ev and str(ev[name]) != want:
+            ctx.violation('wellformed-value', {'data': data.decode()}, f'{name} decoded to {str(ev[name])!r}, the text denotes {want!r}')
+    # a calendar that defines its own zone, with X- properties inside the observances: every provider, starting from an
+    # empty zone cache, twice in a row - the two parses give the same tree and it has every line of the text
+    for prov in ('zoneinfo', 'pytz'):
+        for tzid in (b'Verif/Own-A', b'/verif.example/Own/B'):
+            data = OWN_ZONE % (tzid, tzid)
+            getattr(icalendar, 'use_' + prov)()
+            try:
+                ctx.evaluated(('own-zone', prov, tzid))
+                t1 = icalendar.Calendar.from_ical(data)
+                t2 = icalendar.Calendar.from_ical(data)
+                n_lines = len([ln for ln in data.split(b'\r\n') if ln and not ln.startswith((b'BEGIN', b'END'))])
+                n1 = sum(len(v) if isinstance(v, list) else 1 for c in t1.walk() for v in c.values())
+                if canon_tree(tree_of(t1)) != canon_tree(tree_of(t2)):
+                    ctx.violation('first-parse-differs-from-second', {'data': data.decode(), 'provider': prov},
+                                  'the same text parsed twice in a row gives two different trees')
+                elif n1 != n_lines:
+                    ctx.violation('wellformed-names', {'data': data.decode(), 'provider': prov},
+                                  f'the text has {n_lines} property lines, the parsed tree holds {n1} properties')
+            except ValueError as e:
+                ctx.violation('wellformed-rejected', {'data': data.decode(), 'provider': prov}, f'well-formed text rejected: {e}')
+            finally:
+                icalendar.use_zoneinfo()
+
+
 def oracle(ctx):
+    check_denotation_corpus(ctx)
     for name, data in calgen.fixtures()[:: 3 if ctx.tier == 'quick' and not ctx.escalate else 1]:
         check_parse_is_fresh(ctx, data, name)
     for data in HOSTILE:
